@@ -117,4 +117,38 @@ def run(prop, ctx, results):
     extra['canaries_skipped'] = sum(1 for x in report if x['status'] == 'skipped')
     if blind:
         raise Blind('canary self-test failed — the checker is blind or a canary is broken: %r' % blind)
+    # (iii) negative controls: behaviour-preserving refactorings (benign/*.diff) must stay silent.  Each thorough run takes the
+    # quarter of the corpus assigned to this property (the whole corpus is run by tools/run_benign.py).
+    bd = os.path.join(VERIF, 'benign')
+    names = sorted(x for x in os.listdir(bd) if x.endswith('.diff')) if os.path.isdir(bd) else []
+    mine = [x for i, x in enumerate(names) if i % 4 == int(prop[1:]) % 4]
+    neg = []
+    loud = []
+    from .check import run_rules
+    for x in mine:
+        base, dst = scratch_copy(ctx.repo, '%s-neg' % prop)
+        try:
+            ok, out = apply_patch(dst, os.path.join(bd, x))
+            if not ok:
+                neg.append({'refactoring': x, 'status': 'skipped'})
+                continue
+            c2 = Ctx(dst)
+            try:
+                try:
+                    res = run_rules(prop, c2, 'quick')
+                except build.InfraError as e:
+                    neg.append({'refactoring': x, 'status': 'broken'})
+                    continue
+                keys = [f.key for rr in res for f in rr.findings]
+            finally:
+                c2.close()
+            neg.append({'refactoring': x, 'status': 'silent' if not keys else 'ALARM', 'keys': keys[:4]})
+            if keys:
+                loud.append((x, keys[:3]))
+        finally:
+            shutil.rmtree(base, ignore_errors=True)
+    extra['negative_controls'] = neg
+    extra['negative_controls_silent'] = sum(1 for x in neg if x['status'] == 'silent')
+    if loud:
+        raise Blind('negative control failed — the checker raises an alarm on a behaviour-preserving refactoring: %r' % loud)
     return extra
